@@ -45,7 +45,9 @@ chk(
     "Fault enumeration + exploration: every poll of the real PollingEmitter (direct and through PollingObserverVFS with its real "
     "emitter thread and dispatcher) is compared with a reference diff keyed by (ino,dev) computed from the VFS states; a failure "
     "(ENOENT/ENOTDIR/EACCES) is injected at every stat/listdir call position of each tree's walk; the tree is mutated at chosen call "
-    "positions in mid-walk; root removal is judged for exactly one DirDeletedEvent and a stopped emitter.",
+    "positions in mid-walk; root removal is judged for exactly one DirDeletedEvent and a stopped emitter; every second batch uses a "
+    "lazily failing listdir (a generator, as a scandir-based listdir would be); stop() landing inside a walk must not change the baseline "
+    "the in-flight poll is diffed against.",
     "Trusted: the VFS (POSIX-like lookup semantics), the reference diff in c10.py. Direct mode calls on_thread_start()/queue_events(0) "
     "from the harness thread; thread mode installs each scripted state atomically at the start of a walk.",
     category="fault_enumeration",
@@ -82,7 +84,9 @@ chk(
     "Fault enumeration: every API call sequence up to length 3 (thorough: 4 strided) over 3 watch keys x 2 handlers x 7 call kinds, "
     "re-run once per emitter-construction / on_thread_start opportunity with a failure injected there, plus random sequences to 15 "
     "calls; after every call: observer.emitters vs reference key set, is_alive() vs started, marker event per key must reach exactly "
-    "the reference handler set, exceptions must match the reference (KeyError no-ops, injected failure).",
+    "the reference handler set, exceptions must match the reference (KeyError no-ops, injected failure); the stop hook of the emitter "
+    "being unscheduled is a fault opportunity too (the watch must be gone all the same); stop() may be repeated, with a directed "
+    "stop/schedule/stop family.",
     "Emitters are scripted (BaseObserver(ScriptedEmitter)). The reference encodes documented failure behaviour (see ASSUMPTIONS in "
     "the evidence). Single-threaded by design: the property is about call sequences.",
     category="fault_enumeration",
@@ -119,7 +123,10 @@ chk(
     "(must receive exactly once / must not receive), plus: nothing delivered twice, per-watch order, every queued event dispatched "
     "unless it is a legitimate coalescence, no handler called after a removal of it returned. Directed sweeps hold the dispatcher at "
     "every executed line of dispatch_events (partner: a mutating call aimed at the handler/watch being delivered), an API thread at "
-    "every line of schedule/unschedule/remove_handler/_remove_emitter, and the emitter/dispatcher at every line of the queue's put/_get.",
+    "every line of schedule/unschedule/remove_handler/_remove_emitter, and the emitter/dispatcher at every line of the queue's put/_get. "
+    "Feeders also queue 'twin' events (same path, other class or synthetic flag: distinct events that must both arrive; coalescence is "
+    "judged with a reference equality, not the library's __eq__); a wind-up phase races stop() against callbacks that schedule fresh "
+    "watches (never-started emitters next to running ones), with allocator shuffling so that the emitter set's order varies.",
     "Trusted: logical stamps taken at the client boundary; queue get/task_done wrapped on the instance to stamp dispatch windows. "
     "Not exhaustive over interleavings: single directed preemptions at line granularity + noise + natural scheduling.",
 )
@@ -188,8 +195,11 @@ chk(
     "unschedule, unschedule_all, rm(root), touch, start (+ retry after a failure), stop, join} per emitter kind, 2-3 threads issuing calls "
     "concurrently with re-entrant calls from callbacks, and a directed sweep: every library thread parked at every discovered line of "
     "InotifyBuffer.run / Inotify.read_events / Inotify.close / DelayedQueue.get,close / on_thread_stop / EventDispatcher.stop / "
-    "dispatch_events ... while stop(), unschedule(), root removal or an event proceeds. Violations: a call that does not return with all "
-    "involved threads parked identically in 3 samples (deadlock), a library thread alive after stop()+join(), an undocumented exception.",
+    "dispatch_events ... while stop(), unschedule(), schedule(), root removal or an event proceeds; a third of the sequences use a "
+    "0.05 s observer timeout and an unmatched move-out right before stop(); event floods of 12 000-60 000 queued events with a blocked "
+    "handler and stop() from outside / from the callback. Violations: a call that does not return with all involved threads parked "
+    "identically in 3 samples (deadlock), a library thread alive 50 ms after the final stop()+join() returned, a thread kept alive after "
+    "a completed stop() until a further stop(), an undocumented exception.",
     "Liveness restated as bounded progress + logical stuck-state test; the watchdog alone firing is inconclusive. Real kernel, not a "
     "simulated one; virtual clock not used here (C08/C17 use it).",
 )
@@ -200,7 +210,8 @@ chk(
     "Fault enumeration + schedule sweeps on the real kernel: (a) random schedule/unschedule/start/stop cycles incl. failing calls; (b) a "
     "failure injected at inotify_init and at each inotify_add_watch of trees of 1-4 (thorough 6) directories x {ENOENT, ENOSPC, EMFILE, "
     "EACCES} x {idle, running observer} (complete); (c) reader/emitter/dispatcher/closer parked at every discovered line of the read and "
-    "close paths while the other side runs; audited after every shutdown and every failing call.",
+    "close paths while the other side runs (closer-role holds also with a concurrent schedule()); audited after every shutdown, every "
+    "failing call, and once a stop() of a started observer has completed - before any further stop().",
     "Trusted: the ledger proxies (forward to the real kernel). strace is a cross-check only (one child process per run).",
     category="fault_enumeration",
 )
@@ -211,7 +222,8 @@ chk(
     "Exploration: paced histories biased to move-out, move-in of trees, directories created after start with later activity inside, "
     "opens/closes, each observed by 1 unfiltered + 6 (thorough 8) filtered watches; filters: every concrete class, FileSystemEvent, "
     "FileSystemMovedEvent, pairs, random subsets of 3-6; recursive/non-recursive; normal/full emitter; sequences compared after "
-    "collapsing adjacent identical events.",
+    "collapsing adjacent identical events; 30% of the cases add a directory that arrives together with a symbolic link to a directory "
+    "outside the tree, followed by activity there (found F28).",
     "Trusted: the descriptor ledger's poll wrapper and ioctl(FIONREAD) for quiescence; default 0.5 s pairing delay; nested bursts are not "
     "generated here (their timing-dependent walk duplicates are C03's subject).",
 )
@@ -220,7 +232,7 @@ chk(
     "C19", "wdverif/props/c19.py",
     "per-event path oracle (type, exact root prefix as given, byte-level name of a real entry) over histories with non-ASCII/undecodable names on inotify and polling observers",
     "Exploration: paced histories over names {a, e-acute, snowman, bytes ff fe '.txt', fd} with the root spelled as str / bytes / "
-    "pathlib.Path, absolute / relative / trailing slash, recursive or not, inotify (normal, full, small reads) and polling; every "
+    "pathlib.Path, absolute / relative / './x' / 'y/../x' / trailing slash, recursive or not, inotify (normal, full, small reads) and polling; every "
     "non-empty src_path/dest_path of every delivered event (primary, synthetic, parent-directory) must have the scheduled path's type "
     "and be the root as given joined with the real relative name of an entry that existed.",
     "Trusted: the harness's record of names (model of the tree incl. everything that ever existed in the session).",
@@ -247,7 +259,9 @@ chk(
     "children that die after k polls / ignore SIGINT / exit by themselves; debounce and restart_on_command_exit on/off) judged for "
     "<= 1 live child at every table transition, restart count on quiescent scripts, no live child / no spawn / no helper thread after "
     "stop() returned; shell-command scripts for non-overlap; holds park the debouncer / dispatcher / watcher thread at every executed "
-    "line of EventDebouncer.run and AutoRestartTrick._stop_process/_restart_process/_start_process while stop() or the next event runs.",
+    "line of EventDebouncer.run and AutoRestartTrick._stop_process/_restart_process/_start_process while stop() or the next event runs; "
+    "stop() before / racing start() of the helper threads; the watcher thread of the n-th child failing to start; events never handed to "
+    "a debouncer must not appear in its batches.",
     "Processes are simulated (fake Popen, kill_process, fast clock behind tricks.subprocess/kill_process/time); real signals are not "
     "exercised (the upstream tests that do are skipped here for lack of PyYAML). Three genuine defects of AutoRestartTrick are recorded "
     "as known findings (F11, F21 and its consequence) and matched by mechanism.",
